@@ -1,14 +1,24 @@
 #!/bin/sh
-# usage: tools/try_seed.sh <seed-dir> <ID> [tier]   -- applies patch to /repo, runs check, reverts
+# usage: tools/try_seed.sh <seed-dir> <ID> [tier]
+# Applies the seeded patch to /repo, runs the check in a scratch cache
+# (work tree copied, code cache hard-linked from the main cache so that
+# unchanged generated modules are not recompiled), reverts /repo.
 set -u
 d="$1"; id="$2"; tier="${3:-quick}"
+MAIN=/var/tmp/pysph-verif
+SEED=/var/tmp/pysph-verif-seed
 cd /repo || exit 2
 if ! git diff --quiet; then echo "/repo dirty"; exit 2; fi
 git apply -v "$d/patch.diff" 2>&1 | grep -i "offset" && echo "WARNING: hunk applied with offset - check it landed in the intended function"; git diff --quiet && { echo "patch does not apply"; exit 2; }
+rm -rf "$SEED"; mkdir -p "$SEED"
+for w in "$MAIN"/work-*; do [ -d "$w" ] && cp -a "$w" "$SEED/"; done
+h=$(ls -dt "$MAIN"/home-[0-9a-f]* 2>/dev/null | head -1)
+[ -n "$h" ] && cp -al "$h" "$SEED/"
 cd /verif
-VERIF_CACHE=/var/tmp/pysph-verif-seed VERIF_NOEVIDENCE=1 bin/check "$id" --tier "$tier" > /tmp/try_seed_$$.log 2>&1
+VERIF_CACHE=$SEED VERIF_NOEVIDENCE=1 bin/check "$id" --tier "$tier" > /tmp/try_seed_$$.log 2>&1
 rc=$?
-cd /repo && git checkout -- . 
+cd /repo && git checkout -- .
 grep -E "^VIOLATION|^KNOWN|tier=" /tmp/try_seed_$$.log | head -8
 echo "rc=$rc (log /tmp/try_seed_$$.log)"
+rm -rf "$SEED"
 exit $rc
